@@ -311,16 +311,6 @@ theorem step_key {d F : Bytes} {N : Nat} {all : List FieldT} {nl : Bytes} {pp : 
       · intro x hx; have := hle x hx; simp; omega
     · simp [mu, rank, hst]; omega
 
-theorem carry_whole {p : Bytes} {ts : List Tok} (hc : Carry p ts) (hr : rawOf ts = p) : p = [] ∧ ts = [] := by
-  rcases hc with h | ⟨t, rest, q, rfl, hq, hne⟩
-  · subst h; exact ⟨rfl, rawOf_eq_nil hr⟩
-  · rw [rawOf_cons, hq, List.append_assoc] at hr
-    have : q ++ rawOf rest = [] := by
-      have := List.append_cancel_left (as := p) (bs := q ++ rawOf rest) (cs := []) (by simpa using hr)
-      exact this
-    simp at this
-    exact absurd this.1 hne
-
 theorem valSt_congr {done : List FieldT} {f : FieldT} {pp pp' : PP} {W W' : Bytes}
     (h : ValSt done f pp W) (hW : W = W') (h1 : pp'.xbuf = pp.xbuf) (h2 : pp'.valueOffset = pp.valueOffset)
     (h3 : pp'.evs = pp.evs) (h4 : pp'.mustIkvi = pp.mustIkvi) : ValSt done f pp' W' := by
@@ -477,7 +467,7 @@ theorem step_val_amp {d F : Bytes} {N : Nat} {all : List FieldT} {nl : Bytes} {p
   obtain ⟨hsc, hsvp⟩ := scanned_start d l hev' hsv
   have hne : cAmp ≠ cEq := by decide
   simp only [urlIter, hst, hc, urlValue, urlValue_start, hne, if_false, if_true]
-  by_cases hcb : pp.mustIkvi = true ∨ some (l.startValue.getD l.poff) ≠ some l.poff
+  by_cases hcb : pp.mustIkvi = true ∨ some (l.startValue.getD l.poff) ≠ some l.poff ∨ pp.xbuf.length ≠ 0
   · simp only [hcb, if_true]
     refine ⟨⟨hB.fault, hB.size, by simp; omega, hB.url⟩, ?_, by simp [mu, rank, hst]; omega⟩
     refine LInv.cb _ _ done f (g :: rest) (l.startValue.getD l.poff) l.poff rfl hall hR2 rfl rfl hsvp (by simp) ?_ ?_ ?_
@@ -492,7 +482,7 @@ theorem step_val_amp {d F : Bytes} {N : Nat} {all : List FieldT} {nl : Bytes} {p
     have hs0 : l.startValue.getD l.poff = l.poff := by
       by_cases h : l.startValue.getD l.poff = l.poff
       · exact h
-      · exact absurd (Or.inr (by simpa using h)) hcb
+      · exact absurd (Or.inr (Or.inl (by simpa using h))) hcb
     have hnil : scanned d l = [] := by rw [hsc, hs0]; simp [slice]
     rw [hnil] at hval
     obtain ⟨hx, hdel⟩ := valSt_complete hval hm
@@ -528,7 +518,7 @@ theorem step_val_nl {d F : Bytes} {N : Nat} {all : List FieldT} {nl : Bytes} {pp
     have hcnl : c = cLF ∨ c = cCR := hcn.symm
     obtain ⟨hsc, hsvp⟩ := scanned_start d l hev' hsv
     simp only [urlIter, hst, hc, urlValue, urlValue_start, hceq, hcamp, hcnl, if_false, if_true]
-    by_cases hcb : pp.mustIkvi = true ∨ some (l.startValue.getD l.poff) ≠ some l.poff
+    by_cases hcb : pp.mustIkvi = true ∨ some (l.startValue.getD l.poff) ≠ some l.poff ∨ pp.xbuf.length ≠ 0
     · simp only [hcb, if_true]
       refine ⟨⟨hB.fault, hB.size, hB.poff, hB.url⟩, ?_, by simp [mu, rank, hst]⟩
       refine LInv.cb _ _ done f [] (l.startValue.getD l.poff) l.poff rfl hall (by simpa [encF, hnl'] using hR) rfl rfl hsvp
@@ -543,7 +533,7 @@ theorem step_val_nl {d F : Bytes} {N : Nat} {all : List FieldT} {nl : Bytes} {pp
       have hs0 : l.startValue.getD l.poff = l.poff := by
         by_cases h : l.startValue.getD l.poff = l.poff
         · exact h
-        · exact absurd (Or.inr (by simpa using h)) hcb
+        · exact absurd (Or.inr (Or.inl (by simpa using h))) hcb
       have hnil : scanned d l = [] := by rw [hsc, hs0]; simp [slice]
       rw [hnil] at hval
       obtain ⟨hx, hdel⟩ := valSt_complete hval hm
@@ -680,16 +670,16 @@ theorem carry_len {p : Bytes} {ts : List Tok} (hc : Carry p ts) (hok : AllOk ts)
 
 /-- `process_value` advances the value status: the scanned piece is decoded and delivered -/
 theorem value_process {d : Bytes} {pp : PP} {done : List FieldT} {f : FieldT} {sv ev : Nat} (le : Option Nat) (W : Bytes)
+    (last : Bool)
     (hval : ValSt done f pp (slice d sv ev ++ W)) (hkf : cstr pp.buf = cstr (decOf f.k)) (hokv : AllOk f.v)
-    (hse : sv ≤ ev) (hed : ev ≤ d.length)
-    (hle : ∀ x, le = some x → sv ≤ x ∧ x < ev ∧ d[x]? = some cPct) :
-    ∃ p vo es, processValue d pp (some sv) (some ev) le =
+    (hse : sv ≤ ev) (hed : ev ≤ d.length) (hlast : last = true → W = []) :
+    ∃ p vo es, processValue d pp (some sv) (some ev) le last =
         { pp with xbuf := p, valueOffset := vo, mustIkvi := false, evs := es } ∧
       ValSt done f { pp with xbuf := p, valueOffset := vo, mustIkvi := false, evs := es } W := by
   obtain ⟨vdone, vrest, es0, es1, g1, g2, g3, g4, g5, g6, g7, g8, g9⟩ := hval
   have hokr : AllOk vrest := by rw [g1] at hokv; exact hokv.append_right
   obtain ⟨ts1, ts2, p, es, f1, f2, f3, f4, f5, f6, f7⟩ :=
-    processValue_spec d pp sv ev le vrest W hokr (by rw [g2]; simp) (carry_len g3 hokr) hse hed hle
+    processValue_spec d pp sv ev le vrest W last hokr (by rw [g2]; simp) (carry_len g3 hokr) hse hed hlast
   refine ⟨p, pp.valueOffset + (decOf ts1).length, pp.evs ++ es, f7, ?_⟩
   refine ⟨vdone ++ ts1, ts2, es0, es1 ++ es, by rw [g1, f1]; simp, f4, f3, by simp [g4], by simp [g5], g6, ?_, ?_, ?_⟩
   · rw [decOf_append]
@@ -720,8 +710,8 @@ theorem step_cb {d F : Bytes} {N : Nat} {all : List FieldT} {nl : Bytes} {pp : P
   subst hl1
   have hval2 : ValSt done f pp2 (slice d sv ev ++ []) := by
     simpa using valSt_congr hval rfl k4 k5 k6 k7
-  obtain ⟨p, vo, es, hpv, hval3⟩ := value_process none [] hval2 k9 hf.2.2.1 hse (Nat.le_trans hep hB.poff)
-    (by intro x hx; cases hx)
+  obtain ⟨p, vo, es, hpv, hval3⟩ := value_process none [] true hval2 k9 hf.2.2.1 hse (Nat.le_trans hep hB.poff)
+    (fun _ => rfl)
   obtain ⟨hx, hdel⟩ := valSt_complete hval3 rfl
   have hne : pp2.state ≠ .error := by rw [k2, hst]; decide
   simp only [urlIter, hst, urlCallback, hr, hne, if_false, hsv, hev', hpv]
